@@ -654,7 +654,7 @@ def run():
         def build():
             try:
                 dev = os.environ.get("VERIF_C44_EGO")       # development accelerator only: a binary already built from vf.REPO
-                box["ego"] = dev if dev and os.path.exists(dev) else vf.build_ego(sd, ov)
+                box["ego"] = dev if dev and os.path.exists(dev) else vf.go_build(ov, ".", os.path.join(sd, "ego"), timeout=3000)
             except Exception as ex:      # noqa
                 box["ego_err"] = ex
 
